@@ -53,10 +53,14 @@ row('BOOLEAN.NOT', ['C04'], takes=[('bool', 1)], pushes=[('bool', '!%s' % bb)])
 row('BOOLEAN.ID', ['C04'], pushes=[('int', '1i32')])
 # "Pushes FALSE if the top FLOAT is 0.0, or TRUE otherwise" / "... INTEGER is 0 ...".  The doc does not say
 # whether the operand is consumed: at most one item may leave the operand stack.
+# Both value clauses fail on the pinned tree (known findings: the value is inverted, pinned by the repository's tests).  The `as-recorded` clauses state
+# the recorded deviation exactly -- TRUE precisely for zero -- so that any OTHER value these instructions start to compute is still reported.
 row('BOOLEAN.FROMFLOAT', ['C04'], fired='(S0.float.len() >= 1)', touches=['float'], pushes=[('bool', '!f32_eq(%s, 0.0f32)' % X('float'))],
-    clauses=[('fired.operand.float', 'shrunk(S0.float, S1.float, 1)')])
+    clauses=[('fired.operand.float', 'shrunk(S0.float, S1.float, 1)'),
+             ('fired.value.as-recorded-in-known-findings', '(S0.float.len() >= 1) ==> S1.bool[S0.bool.len() as int] == f32_eq(%s, 0.0f32)' % X('float'))])
 row('BOOLEAN.FROMINTEGER', ['C04'], fired='(S0.int.len() >= 1)', touches=['int'], pushes=[('bool', '%s != 0' % X('int'))],
-    clauses=[('fired.operand.int', 'shrunk(S0.int, S1.int, 1)')])
+    clauses=[('fired.operand.int', 'shrunk(S0.int, S1.int, 1)'),
+             ('fired.value.as-recorded-in-known-findings', '(S0.int.len() >= 1) ==> S1.bool[S0.bool.len() as int] == (%s == 0)' % X('int'))])
 
 # ------------------------------------------------------------------ C04: FLOAT
 af, bf = A('float'), B('float')
